@@ -11,12 +11,19 @@ GroupOf(t) == IF t.k = "number" THEN NumGroup ELSE TakeN(AllVals(t), IF Thorough
 TSeq == SetToSeq(GTypes)
 \* cross-type group: one value of each type, nulls of several types, DynamicVal-free
 Mixed == {CHOOSE v \in Vals(t, W) : TRUE : t \in PrimTypes \cup VT1} \cup {Null(t) : t \in PrimTypes \cup TakeN(VT1, 4)}
-Groups == [i \in 1..Len(TSeq) |-> [k |-> "group", vals |-> SetToSeq(GroupOf(TSeq[i]))]] \o <<[k |-> "group", vals |-> SetToSeq(Mixed)]>>
+\* strings, keys and attribute names that have non-normalized spellings (with and without combining marks); the harness builds each
+\* from its normalized and from a non-normalized spelling
+NormStrs == {StrV(<<"eacute">>), StrV(<<"omega">>), StrV(<<"hangul">>), StrV(<<"a", "eacute">>), StrV(<<"hangul", "a">>), StrV(<<"omega", "b">>), StrV(<<"a">>)}
+NormVals == NormStrs \cup {SeqV(TList(TStr), <<s>>) : s \in TakeN(NormStrs, 3)}
+            \cup {MapV(TMap(TStr), [omega |-> StrV(<<"hangul">>)]), MapV(TMap(TStr), [eacute |-> StrV(<<"a">>)]),
+                  MapV(TObj([eacute |-> TStr]), [eacute |-> StrV(<<"eacute">>)]), MapV(TObj([omega |-> TStr, a |-> TStr]), [omega |-> StrV(<<"a">>), a |-> StrV(<<"omega">>)])}
+Groups == [i \in 1..Len(TSeq) |-> [k |-> "group", vals |-> SetToSeq(GroupOf(TSeq[i]))]] \o <<[k |-> "group", vals |-> SetToSeq(Mixed)], [k |-> "group", vals |-> SetToSeq(NormVals)]>>
 \* set construction inputs: sequences (with repeats) of up to 3 members, per set type
 SetInputs(t) == LET M == TakeN(Members_(t.e, W), 4) IN SeqsUpTo(M, 3) \ {<<>>}
 SetTypes == {t \in GTypes : t.k = "set"}
 BigNums == {K(TNum, [lm |-> x]) : x \in {"i64maxp", "u64maxp", "f64int", "i64max", "f32maxp"}} \cup {NumV(2)}
 Perms == UNION {{[k |-> "setperm", ty |-> t, input |-> s] : s \in SetInputs(t)} : t \in SetTypes}
+         \cup {[k |-> "setperm", ty |-> TSet(TStr), input |-> s] : s \in {<<x, x>> : x \in NormStrs} \cup {<<x, y, x>> : x \in NormStrs, y \in {StrV(<<"b">>)}}}
          \cup {[k |-> "setperm", ty |-> TSet(TNum), input |-> s] : s \in {<<x, x>> : x \in BigNums} \cup {<<x, y, x>> : x \in BigNums, y \in {NumV(4)}}}
 ASSUME ndJsonSerialize(IOEnv.VOUT, Groups \o SetToSeq(Perms))
 ASSUME PrintT(<<"GEN", Len(Groups) + Cardinality(Perms)>>)
